@@ -343,6 +343,41 @@ theorem atomicNumber_noOpt (el : Str) (Z : Val) (h : atomicNumber el = .ok Z) : 
   | none => simp [hget] at h
   | some ea => exact noOpt_elements el (lookup_mem_keys el ea _ hget)
 
+theorem lookup_of_mem_keys {κ ν} [DecidableEq κ] (k : κ) : ∀ (l : List (κ × ν)), k ∈ l.map Prod.fst →
+    ∃ v, l.lookup k = some v ∧ (k, v) ∈ l := by
+  intro l
+  induction l with
+  | nil => simp
+  | cons p ps ih =>
+    intro h
+    rcases p with ⟨k', v'⟩
+    by_cases hk : k = k'
+    · subst hk; exact ⟨v', by simp [List.lookup], by simp⟩
+    · have hb : (k == k') = false := by simpa using hk
+      simp only [List.map_cons, List.mem_cons, hk, false_or] at h
+      obtain ⟨v, hv, hm⟩ := ih h
+      exact ⟨v, by simp only [List.lookup, hb, hv], by simp [hm]⟩
+
+def hasIntAtomicNumber (ea : Attrs) : Bool :=
+  match ea.get? "atomic_number" with
+  | some (Val.sc (.int _)) => true
+  | _ => false
+
+theorem elements_have_number : ∀ p ∈ Tucan.Consts.ELEMENT_ATTRS.items, hasIntAtomicNumber p.2 = true := by
+  decide
+
+/-- every symbol of the element table has an integer atomic number -/
+theorem atomicNumber_known (el : Str) (h : el ∈ Tucan.Consts.ELEMENT_ATTRS.keys) :
+    ∃ n : Int, atomicNumber el = .ok (Val.int n) := by
+  obtain ⟨ea, hl, hm⟩ := lookup_of_mem_keys el _ h
+  have := elements_have_number _ hm
+  unfold atomicNumber
+  simp only [Dict.get?, hl]
+  simp only [hasIntAtomicNumber] at this
+  split at this
+  · next n hn => exact ⟨n, by simp only [Dict.get?] at hn; simp [hn]⟩
+  · cases this
+
 /-- structural assumptions on the tokens of an atom line -/
 structure AtomLine.Shape (a : AtomLine) : Prop where
   idx : NoOpt a.idx
@@ -566,6 +601,45 @@ def atomAttrs (a : AtomLine) (Z : Val) (fx fy fz : Flt) : Attrs :=
     (if (hydrogenIsotope a.sym).2 = 0 then propInt a.props py!"MASS" else some (hydrogenIsotope a.sym).2)
     (propInt a.props py!"RAD")
 
+/-! spec-level facts: defaults, foreign keys, order -/
+
+theorem propInt_nil (K : Str) : propInt [] K = none := rfl
+
+/-- only the properties with key exactly `K` matter (so `EXACHG=1` is not a charge) -/
+theorem propInt_filter (props : List Prop') (K : Str) :
+    propInt props K = propInt (props.filter (fun p => p.key = K)) K := by
+  simp [propInt, propVals, List.filter_filter]
+
+/-- an explicitly written default (`K=0` as the last `K` property) means the same as no `K` property -/
+theorem propInt_append_zero (props : List Prop') (K v : Str) (c : List Str) (hv : parseInt v = .ok 0) :
+    propInt (props ++ [⟨K, v, c⟩]) K = none := by
+  simp [propInt, propVals, List.filter_append, lastNonzero, intOf_eq v 0 hv, Option.filter]
+
+/-- a property with another key can be inserted anywhere -/
+theorem propInt_foreign (ps qs : List Prop') (p : Prop') (K : Str) (h : p.key ≠ K) :
+    propInt (ps ++ p :: qs) K = propInt (ps ++ qs) K := by
+  simp [propInt, propVals, List.filter_append, h]
+
+/-- any order of the properties: if `K` occurs at most once, permuting the properties changes nothing -/
+theorem propInt_perm (props props' : List Prop') (K : Str) (hperm : props.Perm props')
+    (huniq : (props.filter (fun p => p.key = K)).length ≤ 1) : propInt props K = propInt props' K := by
+  have hp := hperm.filter (fun p => decide (p.key = K))
+  have : props.filter (fun p => decide (p.key = K)) = props'.filter (fun p => decide (p.key = K)) := by
+    generalize props.filter (fun p => decide (p.key = K)) = F at hp huniq ⊢
+    rcases F with _ | ⟨a, _ | ⟨b, r⟩⟩
+    · exact hp.nil_eq
+    · exact (List.perm_singleton.mp hp.symm).symm
+    · simp at huniq
+  simp only [propInt, propVals, this]
+
+/-- the attributes depend on the properties only through the CHG, MASS and RAD values -/
+theorem atomAttrs_congr (a a' : AtomLine) (Z : Val) (fx fy fz : Flt) (hs : a.sym = a'.sym)
+    (hc : propInt a.props py!"CHG" = propInt a'.props py!"CHG")
+    (hm : propInt a.props py!"MASS" = propInt a'.props py!"MASS")
+    (hr : propInt a.props py!"RAD" = propInt a'.props py!"RAD") :
+    atomAttrs a Z fx fy fz = atomAttrs a' Z fx fy fz := by
+  simp only [atomAttrs, hs, hc, hm, hr]
+
 theorem hydrogenIsotope_mass (s : Str) : (hydrogenIsotope s).2 = 0 ∨ (hydrogenIsotope s).2 = 2 ∨ (hydrogenIsotope s).2 = 3 := by
   unfold hydrogenIsotope; split_ifs <;> simp
 
@@ -593,6 +667,19 @@ theorem _parse_atom_attributes_ok (env : DepEnv) (a : AtomLine) (h : a.WF) (hsta
     Tucan.molfile_v3000_reader._parse_atom_attributes env a.tokens = .ok (atomAttrs a Z fx fy fz, false) := by
   rw [_parse_atom_attributes_eq env a h.shape, atomMeaning_ok env a h hstar Z fx fy fz hZ hx hy hz]
   rfl
+
+/-- variant: the assumptions on the coordinate tokens follow from the (true) fact about Python's
+`float()` that it rejects strings starting with `CHG=`, `MASS=`, `RAD=` -/
+theorem _parse_atom_attributes_ok_float (env : DepEnv) (a : AtomLine)
+    (hfloat : ∀ s f, env.parseFloat s = .ok f → NoOpt s)
+    (hidx : IsInt a.idx) (haamap : NoOpt a.aamap) (hkey : ∀ p ∈ a.props, '=' ∉ p.key)
+    (hints : ∀ p ∈ a.props, p.key ∈ [py!"CHG", py!"MASS", py!"RAD"] → IsInt p.val)
+    (hcont : ∀ p ∈ a.props, ∀ t ∈ p.cont, NoOpt t) (hstar : a.sym ≠ py!"*")
+    (Z : Val) (fx fy fz : Flt) (hZ : atomicNumber (hydrogenIsotope a.sym).1 = .ok Z)
+    (hx : env.parseFloat a.x = .ok fx) (hy : env.parseFloat a.y = .ok fy) (hz : env.parseFloat a.z = .ok fz) :
+    Tucan.molfile_v3000_reader._parse_atom_attributes env a.tokens = .ok (atomAttrs a Z fx fy fz, false) :=
+  _parse_atom_attributes_ok env a ⟨hidx, hfloat _ _ hx, hfloat _ _ hy, hfloat _ _ hz, haamap, hkey, hints, hcont⟩
+    hstar Z fx fy fz hZ hx hy hz
 
 /-- a star atom line (any line whose fourth token is `*`) -/
 theorem _parse_atom_attributes_star (env : DepEnv) (line : List Str) (h : getItem line (3 : Int) = .ok py!"*") :
@@ -1030,7 +1117,7 @@ theorem searchEndpts_none (s : Str) (h : '(' ∉ s) : searchEndpts s = none := s
 /-- the regular expression finds the `ENDPTS=(…)` group when no `(` precedes it and no `)` follows it -/
 theorem searchEndpts_hit (P B Q : Str) (hP : '(' ∉ P) (hB : B ≠ []) (hQ : ')' ∉ Q) (hnlB : '\n' ∉ B) (hnlQ : '\n' ∉ Q) :
     searchEndpts (P ++ (py!"ENDPTS=(" ++ (B ++ ')' :: Q))) = some (py!"ENDPTS=(" ++ (B ++ [')'])) :=
-  searchAux_hit B Q hB hQ hnlB hnlQ P hP _ (by simp; omega)
+  searchAux_hit B Q hB hQ hnlB hnlQ P hP _ (by simp)
 
 /-- `" ".join(l)` -/
 def joinSp : List Str → Str
@@ -1056,7 +1143,8 @@ theorem splitWsAux_clean (t : Str) (h : ∀ c ∈ t, isPySpace c = false) : ∀ 
   | cons c t ih =>
     intro rest cur
     simp only [List.cons_append, splitWsAux, h c (by simp), Bool.false_eq_true, if_false,
-      ih (fun d hd => h d (by simp [hd])), List.reverse_cons, List.append_assoc, List.singleton_append]
+      ih (fun d hd => h d (by simp [hd])), List.reverse_cons, List.append_assoc,
+      List.nil_append]
 
 theorem splitWs_joinSp : ∀ (l : List Str), (∀ t ∈ l, Clean t) → splitWs (joinSp l) = l
   | [], _ => rfl
@@ -1073,11 +1161,587 @@ theorem splitWs_joinSp : ∀ (l : List Str), (∀ t ∈ l, Clean t) → splitWs 
     simp only [splitWs, joinSp, this, splitWsAux, List.append_nil]
     simp [isPySpace, ht.1, ih]
 
-theorem X (env : DepEnv) (line : List Str) (start : Int) :
-    Tucan.molfile_v3000_reader._parse_bond_line_with_star_atom env line start = .error .key := by
+
+theorem joinSp_inj (ts us : List Str) (hts : ∀ t ∈ ts, Clean t) (hus : ∀ t ∈ us, Clean t)
+    (h : joinSp ts = joinSp us) : ts = us := by
+  rw [← splitWs_joinSp ts hts, h, splitWs_joinSp us hus]
+
+/-- for blank-free non-empty tokens the delimiter test compares token lists: the reader rejects
+exactly when the tokens after `M V30` are not the expected ones -/
+theorem join_ne_of_tokens_ne (ts expected : List Str) (hts : ∀ t ∈ ts, Clean t) (hex : ∀ t ∈ expected, Clean t)
+    (hne : ts ≠ expected) : join py!" " ts ≠ join py!" " expected := by
+  rw [join_eq_joinSp, join_eq_joinSp]
+  exact fun h => hne (joinSp_inj ts expected hts hex h)
+
+theorem slice_endpts (B : Str) : slice (py!"ENDPTS=(" ++ (B ++ [')'])) (some (8 : Int)) (some (-1 : Int)) = B := by
+  simp [slice, clampIndex]
+  have h : ((B.length : Int) + 1 + 1 + 1 + 1 + 1 + 1 + 1 + 1).toNat = 8 + B.length := by omega
+  have e : 'E' :: 'N' :: 'D' :: 'P' :: 'T' :: 'S' :: '=' :: '(' :: (B ++ [')']) = (py!"ENDPTS=(" ++ B) ++ [')'] := by simp
+  rw [h, e, List.take_left' (by simp; omega)]; simp
+
+theorem listComp_parseInt (l : List Str) :
+    listComp l (fun num => do return some (← parseInt num)) = intsOf l := by
+  induction l with
+  | nil => rfl
+  | cons s r ih =>
+    simp only [listComp, intsOf, ih, bind_assoc]
+    rcases parseInt s with e | n
+    · rfl
+    simp only [ok_bind, pure_eq_ok]
+
+/-- the bonds a star-atom bond line stands for: the first number is the count, the others the
+(1-based) endpoints -/
+def starBondsOf (start : Int) (ints : List Int) : M (List (Int × Int)) :=
+  match ints with
+  | [] => .error .index
+  | n :: es => if n = es.length then pure (es.map (fun e => (start, e - 1))) else parserError
+
+theorem clean_no_nl (nums : List Str) (h : ∀ t ∈ nums, Clean t) : '\n' ∉ joinSp nums := by
+  induction nums using joinSp.induct with
+  | case1 => simp [joinSp]
+  | case2 t =>
+    intro hc
+    have := (h t (by simp)).2 _ hc
+    revert this; decide
+  | case3 t u r ih =>
+    simp only [joinSp, List.mem_append, List.mem_cons, not_or]
+    refine ⟨?_, by decide, ih (fun x hx => h x (by simp [hx]))⟩
+    intro hc
+    have := (h t (by simp)).2 _ hc
+    revert this; decide
+
+theorem joinSp_ne_nil (nums : List Str) (hne : nums ≠ []) (h : ∀ t ∈ nums, Clean t) : joinSp nums ≠ [] := by
+  rcases nums with _ | ⟨t, _ | ⟨u, r⟩⟩
+  · exact absurd rfl hne
+  · exact (h t (by simp)).1
+  · simp [joinSp]
+
+theorem _parse_bond_line_with_star_atom_core (env : DepEnv) (line : List Str) (start : Int) (P Q : Str)
+    (nums : List Str) (hjoin : join py!" " line = P ++ (py!"ENDPTS=(" ++ (joinSp nums ++ ')' :: Q)))
+    (hP : '(' ∉ P) (hQ : ')' ∉ Q) (hnlQ : '\n' ∉ Q) (hne : nums ≠ []) (hnums : ∀ t ∈ nums, Clean t) :
+    Tucan.molfile_v3000_reader._parse_bond_line_with_star_atom env line start =
+      (do let ints ← intsOf nums; starBondsOf start ints) := by
   unfold Tucan.molfile_v3000_reader._parse_bond_line_with_star_atom
-  simp only [pyIter_list]
-  trace_state
-  sorry
+  have hs := searchEndpts_hit P (joinSp nums) Q hP (joinSp_ne_nil nums hne hnums) hQ (clean_no_nl nums hnums) hnlQ
+  simp only [pyIter_list, hjoin, hs, isNone, Option.isNone_some, Bool.false_eq_true, if_false, optGet, Option.getD_some,
+    slice_endpts, splitWs_joinSp nums hnums, listComp_parseInt]
+  rcases intsOf nums with e | ints
+  · rfl
+  simp only [ok_bind]
+  cases ints with
+  | nil => rfl
+  | cons n es =>
+    have g0 : getItem (n :: es) (0 : Int) = .ok n := rfl
+    have hsl : slice (n :: es) (some (1 : Int)) none = es := by simp [slice, clampIndex]
+    have hlc : listComp es (fun end_atom_index => (pure (some (start, end_atom_index - 1)) : M (Option (Int × Int))))
+        = .ok (es.map (fun e => (start, e - 1))) := by
+      have := listComp_ok es (fun e => (pure (some (start, e - 1)) : M (Option (Int × Int))))
+        (fun e => some (start, e - 1)) (fun _ _ => rfl)
+      rw [this]; simp
+    simp only [g0, ok_bind, hsl, hlc, starBondsOf]
+    by_cases hn : n = es.length
+    · simp [hn, pyNe, PyCmp.eq]
+    · simp [hn, pyNe, PyCmp.eq, parserError]
+
+/-- a bond line without parentheses has no ENDPTS group: silently no bond -/
+theorem _parse_bond_line_with_star_atom_none (env : DepEnv) (line : List Str) (start : Int)
+    (h : '(' ∉ join py!" " line) :
+    Tucan.molfile_v3000_reader._parse_bond_line_with_star_atom env line start = .ok [] := by
+  unfold Tucan.molfile_v3000_reader._parse_bond_line_with_star_atom
+  simp only [pyIter_list, searchEndpts_none _ h, isNone, Option.isNone_none, if_true, pure_eq_ok]
+
+
+
+/-! ### bond lines as token lists -/
+
+/-- append `)` to the last token -/
+def closeLast : List Str → List Str
+  | [] => []
+  | [t] => [t ++ [')']]
+  | t :: u :: r => t :: closeLast (u :: r)
+
+/-- the blank-separated tokens of `ENDPTS=(n a1 … an)` -/
+def endptsTokens : List Str → List Str
+  | [] => []
+  | t :: r => closeLast ((py!"ENDPTS=(" ++ t) :: r)
+
+theorem joinSp_closeLast : ∀ (l : List Str), l ≠ [] → joinSp (closeLast l) = joinSp l ++ [')']
+  | [], h => absurd rfl h
+  | [t], _ => rfl
+  | t :: u :: r, _ => by
+    have ih := joinSp_closeLast (u :: r) (by simp)
+    cases hcl : closeLast (u :: r) with
+    | nil => cases r <;> simp [closeLast] at hcl
+    | cons x xs =>
+      simp only [closeLast, hcl, joinSp]
+      rw [hcl] at ih
+      rw [ih]; simp
+
+theorem joinSp_cons (t : Str) (l : List Str) (h : l ≠ []) : joinSp (t :: l) = t ++ ' ' :: joinSp l := by
+  cases l with
+  | nil => exact absurd rfl h
+  | cons u r => rfl
+
+theorem joinSp_endptsTokens (nums : List Str) (h : nums ≠ []) :
+    joinSp (endptsTokens nums) = py!"ENDPTS=(" ++ (joinSp nums ++ [')']) := by
+  cases nums with
+  | nil => exact absurd rfl h
+  | cons t r =>
+    rw [endptsTokens, joinSp_closeLast _ (by simp)]
+    cases r with
+    | nil => simp [joinSp]
+    | cons u r => simp [joinSp]
+
+theorem joinSp_append (A B : List Str) (hA : A ≠ []) (hB : B ≠ []) :
+    joinSp (A ++ B) = joinSp A ++ ' ' :: joinSp B := by
+  induction A with
+  | nil => exact absurd rfl hA
+  | cons t A ih =>
+    cases A with
+    | nil => simp [joinSp_cons _ _ hB, joinSp]
+    | cons u A =>
+      have := ih (by simp)
+      simp only [List.cons_append] at this ⊢
+      rw [joinSp_cons t _ (by simp), this, joinSp_cons t _ (by simp)]
+      simp
+
+theorem mem_joinSp (c : Char) : ∀ (l : List Str), c ∈ joinSp l → c = ' ' ∨ ∃ t ∈ l, c ∈ t
+  | [], h => by simp [joinSp] at h
+  | [t], h => Or.inr ⟨t, by simp, h⟩
+  | t :: u :: r, h => by
+    simp only [joinSp, List.mem_append, List.mem_cons] at h
+    rcases h with h | h | h
+    · exact Or.inr ⟨t, by simp, h⟩
+    · exact Or.inl h
+    · rcases mem_joinSp c (u :: r) h with h | ⟨x, hx, hc⟩
+      · exact Or.inl h
+      · exact Or.inr ⟨x, by simp [List.mem_cons.mp hx], hc⟩
+
+/-- abstract bond line `M  V30 index type atom1 atom2 [key=value]*`; if there is an
+`ENDPTS=(n a1 … an)` property, `pre` are the property tokens before it, `nums` its numbers and
+`post` the property tokens after it; otherwise `pre` are all property tokens -/
+structure BondLine where
+  idx : Str
+  typ : Str
+  a1 : Str
+  a2 : Str
+  pre : List Str
+  endpts : Option (List Str × List Str)
+
+def BondLine.tokens (b : BondLine) : List Str :=
+  [py!"M", py!"V30", b.idx, b.typ, b.a1, b.a2] ++ (b.pre ++
+    match b.endpts with
+    | none => []
+    | some (nums, post) => endptsTokens nums ++ post)
+
+/-- ENDPTS is the only parenthesised property (as in the CTfile format) and its numbers are clean tokens -/
+structure BondLine.Shape (b : BondLine) : Prop where
+  noparen : ∀ t ∈ [b.idx, b.typ, b.a1, b.a2] ++ b.pre, '(' ∉ t
+  endpts : ∀ nums post, b.endpts = some (nums, post) →
+    nums ≠ [] ∧ (∀ t ∈ nums, Clean t) ∧ ∀ t ∈ post, ')' ∉ t ∧ '\n' ∉ t
+
+/-- the bonds of a line whose other end is a star atom: one per listed endpoint; none without ENDPTS -/
+def starMeaning (start : Int) (endpts : Option (List Str × List Str)) : M (List (Int × Int)) :=
+  match endpts with
+  | none => pure []
+  | some (nums, _) => do let ints ← intsOf nums; starBondsOf start ints
+
+theorem _parse_bond_line_with_star_atom_eq (env : DepEnv) (b : BondLine) (h : b.Shape) (start : Int) :
+    Tucan.molfile_v3000_reader._parse_bond_line_with_star_atom env b.tokens start = starMeaning start b.endpts := by
+  have hfix : ∀ c ∈ joinSp ([py!"M", py!"V30", b.idx, b.typ, b.a1, b.a2] ++ b.pre), c ≠ '(' := by
+    intro c hc
+    rcases mem_joinSp c _ hc with rfl | ⟨t, ht, hct⟩
+    · decide
+    · rintro rfl
+      simp only [List.cons_append, List.nil_append, List.mem_cons] at ht
+      rcases ht with rfl | rfl | ht
+      · revert hct; decide
+      · revert hct; decide
+      · exact h.noparen t (by simpa using ht) hct
+  cases he : b.endpts with
+  | none =>
+    have htok : b.tokens = [py!"M", py!"V30", b.idx, b.typ, b.a1, b.a2] ++ b.pre := by
+      simp [BondLine.tokens, he]
+    rw [starMeaning]
+    apply _parse_bond_line_with_star_atom_none
+    rw [join_eq_joinSp, htok]
+    intro hc; exact hfix _ hc rfl
+  | some np =>
+    rcases np with ⟨nums, post⟩
+    obtain ⟨hne, hclean, hpost⟩ := h.endpts nums post he
+    have hE : endptsTokens nums ≠ [] := by
+      cases nums with
+      | nil => exact absurd rfl hne
+      | cons t r => cases r <;> simp [endptsTokens, closeLast]
+    let Q : Str := if post = [] then [] else ' ' :: joinSp post
+    have hEQ : joinSp (endptsTokens nums ++ post) = py!"ENDPTS=(" ++ (joinSp nums ++ ')' :: Q) := by
+      by_cases hp : post = []
+      · simp [Q, hp, joinSp_endptsTokens nums hne]
+      · rw [joinSp_append _ _ hE hp, joinSp_endptsTokens nums hne]; simp [Q, hp]
+    have hjoin : join py!" " b.tokens = (joinSp ([py!"M", py!"V30", b.idx, b.typ, b.a1, b.a2] ++ b.pre) ++ [' ']) ++
+        (py!"ENDPTS=(" ++ (joinSp nums ++ ')' :: Q)) := by
+      have htok : b.tokens = ([py!"M", py!"V30", b.idx, b.typ, b.a1, b.a2] ++ b.pre) ++ (endptsTokens nums ++ post) := by
+        simp [BondLine.tokens, he]
+      rw [join_eq_joinSp, htok, joinSp_append _ _ (by simp) (by simp [hE]), hEQ]
+      simp
+    have hQ : ∀ c ∈ Q, c ≠ ')' ∧ c ≠ '\n' := by
+      intro c hc
+      by_cases hp : post = []
+      · simp [Q, hp] at hc
+      · simp only [Q, hp, if_false, List.mem_cons] at hc
+        rcases hc with rfl | hc
+        · decide
+        · rcases mem_joinSp c _ hc with rfl | ⟨t, ht, hct⟩
+          · decide
+          · exact ⟨by rintro rfl; exact (hpost t ht).1 hct, by rintro rfl; exact (hpost t ht).2 hct⟩
+    rw [_parse_bond_line_with_star_atom_core env b.tokens start _ Q nums hjoin ?_ ?_ ?_ hne hclean]
+    · rfl
+    · intro hc
+      simp only [List.mem_append, List.mem_singleton] at hc
+      rcases hc with hc | hc
+      · exact hfix _ hc rfl
+      · revert hc; decide
+    · intro hc; exact (hQ _ hc).1 rfl
+    · intro hc; exact (hQ _ hc).2 rfl
+
+
+/-! ### bond block -/
+
+def bondAttrs (ty : Int) : Attrs := ⟨[("bond_type", Val.int ty)]⟩
+
+/-- meaning of a bond line given the star atoms: the atom pairs it connects and the bond attributes.
+A bond between two non-star atoms is one pair; a bond to a star atom is one pair per ENDPTS endpoint;
+two star atoms may not be bonded. -/
+def bondMeaning (stars : List Int) (b : BondLine) : M (List (Int × Int) × Attrs) := do
+  let i1 ← parseInt b.a1
+  let i2 ← parseInt b.a2
+  let ty ← parseInt b.typ
+  let ts ← (if i1 - 1 ∈ stars ∧ i2 - 1 ∈ stars then parserError
+    else if i1 - 1 ∈ stars then starMeaning (i2 - 1) b.endpts
+    else if i2 - 1 ∈ stars then starMeaning (i1 - 1) b.endpts
+    else pure [(i1 - 1, i2 - 1)])
+  pure (ts, bondAttrs ty)
+
+def bondEntries (stars : List Int) : List BondLine → M (List ((Int × Int) × Attrs))
+  | [] => pure []
+  | b :: r => do
+    let m ← bondMeaning stars b
+    let rs ← bondEntries stars r
+    pure (m.1.map (fun t => (t, m.2)) ++ rs)
+
+/-- meaning of a bond block: `(atom1-1, atom2-1) ↦ {bond_type}` for every pair, in file order -/
+def bondBlockMeaning (stars : List Int) (bonds : List BondLine) : M (Dict (Int × Int) Attrs) := do
+  let es ← bondEntries stars bonds
+  pure (Dict.ofPairs es)
+
+theorem bondInner (ts : List (Int × Int)) (at_ : Attrs) : ∀ (d : Dict (Int × Int) Attrs),
+    forIn ts d (fun t s => do let x ← (setItem s t at_ : M (Dict (Int × Int) Attrs)); pure (ForInStep.yield x)) =
+      (.ok (d.updatePairs (ts.map (fun t => (t, at_)))) : M _) := by
+  induction ts with
+  | nil => intro d; rfl
+  | cons t ts ih =>
+    intro d
+    simp only [List.forIn_cons, setItem_dict, ok_bind, pure_eq_ok] at ih ⊢
+    rw [ih]; rfl
+
+abbrev BondSt := List (Int × Int) × Dict (Int × Int) Attrs
+
+theorem bondLoop (stars : List Int) (body : List Str → BondSt → M (ForInStep BondSt)) (bonds : List BondLine)
+    (hbody : ∀ b ∈ bonds, ∀ s, body b.tokens s =
+      (do let m ← bondMeaning stars b; pure (ForInStep.yield (m.1, s.2.updatePairs (m.1.map (fun t => (t, m.2))))))) :
+    ∀ s, (do let r ← forIn (bonds.map BondLine.tokens) s body; pure r.2) =
+      (do let es ← bondEntries stars bonds; pure (s.2.updatePairs es)) := by
+  induction bonds with
+  | nil => intro s; rfl
+  | cons b r ih =>
+    intro s
+    simp only [List.map_cons, List.forIn_cons, hbody b (by simp), bondEntries, bind_assoc]
+    rcases bondMeaning stars b with e | m
+    · rfl
+    simp only [ok_bind, pure_eq_ok]
+    have := ih (fun c hc => hbody c (by simp [hc])) (m.1, s.2.updatePairs (m.1.map (fun t => (t, m.2))))
+    simp only [pure_eq_ok] at this
+    rw [this]
+    rcases bondEntries stars r with e | es
+    · rfl
+    · simp [Dict.updatePairs]
+
+theorem getItem_int {α} (l : List α) (i : Int) (k : Nat) (a : α) (hi : i = (k : Int)) (h : l[k]? = some a) :
+    getItem l i = .ok a := by subst hi; exact getItem_nat l k a h
+
+theorem slice_block' {α} (l : List α) (i j : Int) (k n : Nat) (hi : i = (k : Int)) (hj : j = (k : Int) + (n : Int))
+    (h : k + n ≤ l.length) : slice l (some i) (some j) = (l.drop k).take n := by
+  subst hi hj; exact slice_block l k n h
+
+/-- the bond block of `bonds` sits in `lines` where the counts line (`na` atoms) says -/
+structure BondBlockAt (lines : List (List Str)) (na : Nat) (bonds : List BondLine) : Prop where
+  counts : ∃ c cntA cntB, lines[5]? = some c ∧ c[3]? = some cntA ∧ c[4]? = some cntB ∧
+    parseInt cntA = .ok (na : Int) ∧ parseInt cntB = .ok (bonds.length : Int)
+  begin_ : ∃ l, lines[7 + na + 1]? = some l ∧ l.drop 2 = [py!"BEGIN", py!"BOND"]
+  end_ : ∃ l, lines[7 + na + 2 + bonds.length]? = some l ∧ l.drop 2 = [py!"END", py!"BOND"]
+  bonds : (lines.drop (7 + na + 2)).take bonds.length = bonds.map BondLine.tokens
+
+theorem bond_g3 (b : BondLine) : b.tokens[3]? = some b.typ := rfl
+theorem bond_g4 (b : BondLine) : getItem b.tokens (4 : Int) = .ok b.a1 := rfl
+theorem bond_g5 (b : BondLine) : getItem b.tokens (5 : Int) = .ok b.a2 := rfl
+
+/-- **C07, bond block** (non-empty; with the rejections of the individual lines) -/
+theorem _parse_bond_block_eq (env : DepEnv) (lines : List (List Str)) (stars : List Int) (na : Nat)
+    (bonds : List BondLine) (hne : bonds ≠ []) (hb : BondBlockAt lines na bonds) (hshape : ∀ b ∈ bonds, b.Shape) :
+    Tucan.molfile_v3000_reader._parse_bond_block env lines stars = bondBlockMeaning stars bonds := by
+  obtain ⟨c, cntA, cntB, h5, h3, h4, hcA, hcB⟩ := hb.counts
+  obtain ⟨lb, h6, hlb⟩ := hb.begin_
+  obtain ⟨le, h7, hle⟩ := hb.end_
+  have hlen : 7 + na + 2 + bonds.length ≤ lines.length := by
+    have := (List.getElem?_eq_some_iff.mp h7).1; omega
+  unfold Tucan.molfile_v3000_reader._parse_bond_block bondBlockMeaning
+  have g5 : getItem lines (5 : Int) = .ok c := getItem_nat lines 5 c h5
+  have g3 : getItem c (3 : Int) = .ok cntA := getItem_nat c 3 cntA h3
+  have g4 : getItem c (4 : Int) = .ok cntB := getItem_nat c 4 cntB h4
+  have g6 : getItem lines ((7 : Int) + (na : Int) + 2 - 1) = .ok lb :=
+    getItem_int lines _ (7 + na + 1) lb (by push_cast; omega) h6
+  have g7 : getItem lines ((7 : Int) + (na : Int) + 2 + (bonds.length : Int)) = .ok le :=
+    getItem_int lines _ (7 + na + 2 + bonds.length) le (by push_cast; omega) h7
+  have hsl : slice lines (some ((7 : Int) + (na : Int) + 2)) (some ((7 : Int) + (na : Int) + 2 + (bonds.length : Int)))
+      = bonds.map BondLine.tokens := by
+    rw [← hb.bonds]; exact slice_block' lines _ _ (7 + na + 2) bonds.length (by push_cast; omega) (by push_cast; omega) hlen
+  have hjb : pyNe (join py!" " (slice lb (some (2 : Int)) none)) py!"BEGIN BOND" = false := by
+    rw [slice_from_2, hlb]; rfl
+  have hje : pyNe (join py!" " (slice le (some (2 : Int)) none)) py!"END BOND" = false := by
+    rw [slice_from_2, hle]; rfl
+  have hz : pyEq (bonds.length : Int) (0 : Int) = false := by
+    cases bonds with
+    | nil => exact absurd rfl hne
+    | cons _ _ => simp [pyEq, PyCmp.eq]; omega
+  simp only [pyAdd_int, pyIter_list, g5, g3, g4, hcA, hcB, g6, g7, ok_bind, hjb, hje, hsl, hz, Bool.false_eq_true, if_false]
+  refine Eq.trans (bondLoop stars _ bonds ?hbody (default, Dict.empty)) ?hfin
+  case hfin =>
+    rcases bondEntries stars bonds with e | es
+    · rfl
+    · rfl
+  case hbody =>
+    intro b hb s
+    unfold bondMeaning
+    simp only [bond_g4, bond_g5, ok_bind, _parse_bond_attributes_eq env b.tokens b.typ (bond_g3 b),
+      _parse_bond_line_with_star_atom_eq env b (hshape b hb), bind_assoc]
+    rcases parseInt b.a1 with e | i1
+    · rfl
+    rcases parseInt b.a2 with e | i2
+    · rfl
+    rcases parseInt b.typ with e | ty
+    · rfl
+    simp only [ok_bind, pyContains_list, truthy]
+    by_cases h1 : i1 - 1 ∈ stars <;> by_cases h2 : i2 - 1 ∈ stars
+    · simp [h1, h2, parserError]
+    · simp only [h1, h2, decide_true, decide_false, Bool.and_false, Bool.false_eq_true, if_false, if_true,
+        and_false, id_eq]
+      rcases starMeaning (i2 - 1) b.endpts with e | ts
+      · rfl
+      · simp only [ok_bind, bondInner]
+        simp only [ok_bind, bondAttrs, pure_eq_ok]
+    · simp only [h1, h2, decide_true, decide_false, Bool.false_and, Bool.false_eq_true, if_false, if_true,
+        false_and, id_eq]
+      rcases starMeaning (i1 - 1) b.endpts with e | ts
+      · rfl
+      · simp only [ok_bind, bondInner]
+        simp only [ok_bind, bondAttrs, pure_eq_ok]
+    · simp only [h1, h2, decide_false, Bool.false_and, Bool.false_eq_true, if_false, false_and, id_eq,
+        ok_bind, bondInner]
+      simp only [ok_bind, bondAttrs, pure_eq_ok, List.map_cons, List.map_nil]
+
+/-- the bond block is optional: bond count 0 → no bonds, whatever follows -/
+theorem _parse_bond_block_empty (env : DepEnv) (lines : List (List Str)) (stars : List Int) (c : List Str)
+    (cntA cntB : Str) (na : Int) (h5 : lines[5]? = some c) (h3 : c[3]? = some cntA) (h4 : c[4]? = some cntB)
+    (hcA : parseInt cntA = .ok na) (hcB : parseInt cntB = .ok 0) :
+    Tucan.molfile_v3000_reader._parse_bond_block env lines stars = .ok Dict.empty := by
+  unfold Tucan.molfile_v3000_reader._parse_bond_block
+  have g5 : getItem lines (5 : Int) = .ok c := getItem_nat lines 5 c h5
+  have g3 : getItem c (3 : Int) = .ok cntA := getItem_nat c 3 cntA h3
+  have g4 : getItem c (4 : Int) = .ok cntB := getItem_nat c 4 cntB h4
+  simp only [g5, g3, g4, hcA, hcB, ok_bind]
+  rfl
+
+
+/-- BEGIN BOND is not on the line after END ATOM → rejected (bond count non-zero) -/
+theorem _parse_bond_block_reject_begin (env : DepEnv) (lines : List (List Str)) (stars : List Int) (c lb : List Str)
+    (cntA cntB : Str) (na : Nat) (nb : Int) (h5 : lines[5]? = some c) (h3 : c[3]? = some cntA) (h4 : c[4]? = some cntB)
+    (hcA : parseInt cntA = .ok (na : Int)) (hcB : parseInt cntB = .ok nb) (hnb : nb ≠ 0)
+    (h6 : lines[7 + na + 1]? = some lb) (hne : join py!" " (lb.drop 2) ≠ py!"BEGIN BOND") :
+    Tucan.molfile_v3000_reader._parse_bond_block env lines stars = parserError := by
+  unfold Tucan.molfile_v3000_reader._parse_bond_block
+  have g5 : getItem lines (5 : Int) = .ok c := getItem_nat lines 5 c h5
+  have g3 : getItem c (3 : Int) = .ok cntA := getItem_nat c 3 cntA h3
+  have g4 : getItem c (4 : Int) = .ok cntB := getItem_nat c 4 cntB h4
+  have g6 : getItem lines ((7 : Int) + (na : Int) + 2 - 1) = .ok lb :=
+    getItem_int lines _ (7 + na + 1) lb (by push_cast; omega) h6
+  have hjb : pyNe (join py!" " (slice lb (some (2 : Int)) none)) py!"BEGIN BOND" = true := by
+    rw [slice_from_2]; simpa [pyNe, PyCmp.eq] using hne
+  have hz : pyEq nb (0 : Int) = false := by simpa [pyEq, PyCmp.eq] using hnb
+  simp only [pyAdd_int, pyIter_list, g5, g3, g4, hcA, hcB, g6, ok_bind, hjb, hz, Bool.false_eq_true, if_false, if_true,
+    throw_eq_error, error_bind, parserError]
+
+/-- END BOND is not where the bond count says → rejected -/
+theorem _parse_bond_block_reject_end (env : DepEnv) (lines : List (List Str)) (stars : List Int) (c lb le : List Str)
+    (cntA cntB : Str) (na nb : Nat) (h5 : lines[5]? = some c) (h3 : c[3]? = some cntA) (h4 : c[4]? = some cntB)
+    (hcA : parseInt cntA = .ok (na : Int)) (hcB : parseInt cntB = .ok (nb : Int)) (hnb : nb ≠ 0)
+    (h6 : lines[7 + na + 1]? = some lb) (hlb : lb.drop 2 = [py!"BEGIN", py!"BOND"])
+    (h7 : lines[7 + na + 2 + nb]? = some le) (hne : join py!" " (le.drop 2) ≠ py!"END BOND") :
+    Tucan.molfile_v3000_reader._parse_bond_block env lines stars = parserError := by
+  unfold Tucan.molfile_v3000_reader._parse_bond_block
+  have g5 : getItem lines (5 : Int) = .ok c := getItem_nat lines 5 c h5
+  have g3 : getItem c (3 : Int) = .ok cntA := getItem_nat c 3 cntA h3
+  have g4 : getItem c (4 : Int) = .ok cntB := getItem_nat c 4 cntB h4
+  have g6 : getItem lines ((7 : Int) + (na : Int) + 2 - 1) = .ok lb :=
+    getItem_int lines _ (7 + na + 1) lb (by push_cast; omega) h6
+  have g7 : getItem lines ((7 : Int) + (na : Int) + 2 + (nb : Int)) = .ok le :=
+    getItem_int lines _ (7 + na + 2 + nb) le (by push_cast; omega) h7
+  have hjb : pyNe (join py!" " (slice lb (some (2 : Int)) none)) py!"BEGIN BOND" = false := by
+    rw [slice_from_2, hlb]; rfl
+  have hje : pyNe (join py!" " (slice le (some (2 : Int)) none)) py!"END BOND" = true := by
+    rw [slice_from_2]; simpa [pyNe, PyCmp.eq] using hne
+  have hz : pyEq (nb : Int) (0 : Int) = false := by simpa [pyEq, PyCmp.eq] using hnb
+  simp only [pyAdd_int, pyIter_list, g5, g3, g4, hcA, hcB, g6, g7, ok_bind, hjb, hje, hz, Bool.false_eq_true, if_false,
+    if_true, throw_eq_error, error_bind, parserError]
+
+/-! ### accepted case of the bond block, pure spec -/
+
+/-- the atom pairs of a well-formed bond line (`i1`, `i2` the 1-based atom numbers) -/
+def endptPairs (start : Int) (endpts : Option (List Int)) : List (Int × Int) :=
+  match endpts with
+  | some (_ :: es) => es.map (fun e => (start, e - 1))
+  | _ => []
+
+def bondPairs (stars : List Int) (i1 i2 : Int) (endpts : Option (List Int)) : List (Int × Int) :=
+  if i1 - 1 ∈ stars then endptPairs (i2 - 1) endpts
+  else if i2 - 1 ∈ stars then endptPairs (i1 - 1) endpts
+  else [(i1 - 1, i2 - 1)]
+
+/-- **C07, bond line, accepted case**: atom numbers, type and ENDPTS numbers are integers, the ENDPTS
+count matches, not both ends are star atoms -/
+theorem bondMeaning_ok (stars : List Int) (b : BondLine) (i1 i2 ty : Int)
+    (h1 : parseInt b.a1 = .ok i1) (h2 : parseInt b.a2 = .ok i2) (ht : parseInt b.typ = .ok ty)
+    (hss : ¬ (i1 - 1 ∈ stars ∧ i2 - 1 ∈ stars))
+    (hE : ∀ nums post, b.endpts = some (nums, post) → (∀ t ∈ nums, IsInt t) ∧
+      ∃ n es, nums.map intOf = n :: es ∧ n = es.length) :
+    bondMeaning stars b = .ok (bondPairs stars i1 i2 (b.endpts.map (fun p => p.1.map intOf)), bondAttrs ty) := by
+  have hstar : ∀ start, starMeaning start b.endpts = .ok (endptPairs start (b.endpts.map (fun p => p.1.map intOf))) := by
+    intro start
+    cases he : b.endpts with
+    | none => rfl
+    | some np =>
+      rcases np with ⟨nums, post⟩
+      obtain ⟨hint, n, es, hnum, hn⟩ := hE nums post he
+      simp only [starMeaning, intsOf_ok nums hint, ok_bind, hnum, starBondsOf, hn, if_true, Option.map_some, pure_eq_ok,
+        endptPairs]
+  unfold bondMeaning bondPairs
+  simp only [h1, h2, ht, ok_bind, hss, if_false, hstar]
+  by_cases a : i1 - 1 ∈ stars
+  · simp only [a, if_true, ok_bind, pure_eq_ok]
+  · by_cases c : i2 - 1 ∈ stars
+    · simp only [a, c, if_true, if_false, ok_bind, pure_eq_ok]
+    · simp only [a, c, if_false, ok_bind, pure_eq_ok]
+
+theorem bondEntries_ok (stars : List Int) (bonds : List BondLine) (ms : List (List (Int × Int) × Attrs))
+    (h : List.Forall₂ (fun b m => bondMeaning stars b = .ok m) bonds ms) :
+    bondEntries stars bonds = .ok (ms.flatMap (fun m => m.1.map (fun t => (t, m.2)))) := by
+  induction h with
+  | nil => rfl
+  | cons hbm _ ih => simp only [bondEntries, hbm, ih, ok_bind, pure_eq_ok, List.flatMap_cons]
+
+/-- **C07, bond block, accepted case**: one dict entry per atom pair of every bond line, in file order -/
+theorem _parse_bond_block_ok (env : DepEnv) (lines : List (List Str)) (stars : List Int) (na : Nat)
+    (bonds : List BondLine) (hne : bonds ≠ []) (hb : BondBlockAt lines na bonds) (hshape : ∀ b ∈ bonds, b.Shape)
+    (ms : List (List (Int × Int) × Attrs)) (h : List.Forall₂ (fun b m => bondMeaning stars b = .ok m) bonds ms) :
+    Tucan.molfile_v3000_reader._parse_bond_block env lines stars =
+      .ok (Dict.ofPairs (ms.flatMap (fun m => m.1.map (fun t => (t, m.2))))) := by
+  rw [_parse_bond_block_eq env lines stars na bonds hne hb hshape, bondBlockMeaning, bondEntries_ok stars bonds ms h]
+  rfl
+
+theorem IsInt.no_paren {s : Str} (h : IsInt s) : '(' ∉ s := by
+  obtain ⟨n, hn⟩ := h
+  intro hc; have := parseInt_ok_chars s n hn _ hc; revert this; decide
+
+/-! ## composition: the connection table from tokenized lines -/
+
+theorem _validate_counts_line_ok (env : DepEnv) (lines : List (List Str)) (c : List Str)
+    (h5 : lines[5]? = some c) (h2 : c[2]? = some py!"COUNTS") (hlen : 5 ≤ c.length) :
+    Tucan.molfile_v3000_reader._validate_counts_line env lines = .ok () := by
+  unfold Tucan.molfile_v3000_reader._validate_counts_line
+  have g5 : getItem lines (5 : Int) = .ok c := getItem_nat lines 5 c h5
+  have g2 : getItem c (2 : Int) = .ok py!"COUNTS" := getItem_nat c 2 _ h2
+  have hl : pyLt (pyLen c) (5 : Int) = false := by
+    simp only [pyLen_list, pyLt, PyCmp.lt, POrd.lt, decide_eq_false_iff_not]; omega
+  simp only [g5, g2, ok_bind, hl, pure_eq_ok]
+  rfl
+
+/-- meaning of a connection table: atoms, then bonds (given the star atoms), then every bond endpoint
+must be a (non-star) atom -/
+def ctabMeaning (env : DepEnv) (atoms : List AtomLine) (bonds : List BondLine) :
+    M (Dict Int Attrs × Dict (Int × Int) Attrs) := do
+  let A ← atomBlockMeaning env atoms
+  let B ← bondBlockMeaning A.2 bonds
+  if ∀ b ∈ B.keys, b.1 ∈ A.1.keys ∧ b.2 ∈ A.1.keys then pure (A.1, B) else parserError
+
+/-- the tokenized lines contain a connection table with the given atom and bond lines -/
+structure CtabAt (lines : List (List Str)) (atoms : List AtomLine) (bonds : List BondLine) : Prop where
+  counts : ∃ c cntA cntB, lines[5]? = some c ∧ c[2]? = some py!"COUNTS" ∧ c[3]? = some cntA ∧ c[4]? = some cntB ∧
+    parseInt cntA = .ok (atoms.length : Int) ∧ parseInt cntB = .ok (bonds.length : Int)
+  atomBlock : AtomBlockAt lines atoms
+  bondBlock : bonds ≠ [] → BondBlockAt lines atoms.length bonds
+
+/-- **C07, composition** from the tokenized lines on -/
+theorem graph_attributes_from_molfile_v3000_eq (env : DepEnv) (fuel : Nat) (ls : List Str) (lines : List (List Str))
+    (htok : Tucan.molfile_v3000_reader._tokenize_lines env fuel ls = .ok lines)
+    (atoms : List AtomLine) (bonds : List BondLine) (hc : CtabAt lines atoms bonds)
+    (hA : ∀ a ∈ atoms, a.Shape) (hB : ∀ b ∈ bonds, b.Shape) :
+    Tucan.molfile_v3000_reader.graph_attributes_from_molfile_v3000 env fuel ls = ctabMeaning env atoms bonds := by
+  obtain ⟨c, cntA, cntB, h5, h2, h3, h4, hcA, hcB⟩ := hc.counts
+  have hlen : 5 ≤ c.length := by have := (List.getElem?_eq_some_iff.mp h4).1; omega
+  unfold Tucan.molfile_v3000_reader.graph_attributes_from_molfile_v3000 ctabMeaning
+  simp only [htok, ok_bind, _validate_counts_line_ok env lines c h5 h2 hlen,
+    _parse_atom_block_eq env lines atoms hc.atomBlock hA]
+  rcases atomBlockMeaning env atoms with e | A
+  · rfl
+  simp only [ok_bind]
+  have hbb : Tucan.molfile_v3000_reader._parse_bond_block env lines A.2 = bondBlockMeaning A.2 bonds := by
+    by_cases hne : bonds = []
+    · subst hne
+      exact _parse_bond_block_empty env lines A.2 c cntA cntB _ h5 h3 h4 hcA hcB
+    · exact _parse_bond_block_eq env lines A.2 atoms.length bonds hne (hc.bondBlock hne) hB
+  rw [hbb]
+  rcases bondBlockMeaning A.2 bonds with e | B
+  · rfl
+  simp only [ok_bind, _validate_bond_indices_eq]
+  split_ifs <;> rfl
+
+
+/-! ## sanity checks of the specs on concrete lines, and axioms -/
+
+-- `M  V30 1 D 0 0 0 0 EXACHG=1 CHG=-1 ATTCHORD=(2 1 Al) MASS=13 RAD=0`
+example :
+    let props : List Prop' := [⟨py!"EXACHG", py!"1", []⟩, ⟨py!"CHG", py!"-1", []⟩,
+      ⟨py!"ATTCHORD", py!"(2", [py!"1", py!"Al)"]⟩, ⟨py!"MASS", py!"13", []⟩, ⟨py!"RAD", py!"0", []⟩]
+    propInt props py!"CHG" = some (-1) ∧ propInt props py!"MASS" = some 13 ∧ propInt props py!"RAD" = none ∧
+      hydrogenIsotope py!"D" = (py!"H", 2) := by
+  decide
+
+example : endptsTokens [py!"3", py!"1", py!"2", py!"5"] = [py!"ENDPTS=(3", py!"1", py!"2", py!"5)"] := by decide
+example : starBondsOf 7 [3, 1, 2, 5] = .ok [(7, 0), (7, 1), (7, 4)] := by decide
+example : starBondsOf 7 [2, 1, 2, 5] = parserError := by decide
+
+#print axioms detect_hydrogen_isotopes_ok
+#print axioms _parse_atom_attributes_eq
+#print axioms _parse_atom_attributes_ok
+#print axioms _parse_atom_attributes_unknown
+#print axioms _parse_atom_attributes_badint
+#print axioms _parse_atom_block_eq
+#print axioms _parse_atom_block_ok_unique
+#print axioms _parse_atom_block_reject_end
+#print axioms _parse_bond_attributes_ok
+#print axioms _parse_bond_line_with_star_atom_eq
+#print axioms _parse_bond_block_eq
+#print axioms _validate_atom_index_eq
+#print axioms _validate_bond_indices_eq
+#print axioms graph_attributes_from_molfile_v3000_eq
 
 end Contracts.V3000
